@@ -89,4 +89,14 @@ CLAIMED = {
         note='Partial: earcut control flow (linked list, z-order hash, hole bridging) is not modelled; point-set containment / '
              'non-overlap are validated, not proved. Trusted: Coq kernel, py2coq, harness.',
         technique=T_Q),
+    'C07': dict(
+        text='Partial. For the edge loop shared by MeshBase._compute_edge_info and Polyface3D.__init__ (hand model EdgeInfo.v, tied '
+             'by vm_compute correspondence on random tri/quad face lists) it is proved for every face list that each undirected edge is '
+             'listed exactly once, that its type + 1 is the number of face incidences, and that is_solid holds iff every edge is used '
+             'exactly twice. Outward orientation, volume and the reaction to removed/duplicated faces are searched on shuffled, flipped, '
+             're-started closed solids against the exact divergence volume and an independent incidence count.',
+        note='Partial: get_outward_faces (ray parity) and from_faces welding are validated, not proved. Trusted: Coq kernel, the hand '
+             'model and its correspondence, harness.',
+        technique='machine-checked Coq proof about a hand-written executable model + vm_compute correspondence with the '
+                  'implementation; exact-rational search'),
 }
